@@ -148,6 +148,7 @@ func c01Check(cs c01Case) (ds []disc) {
 		}
 	}()
 	metaSent := cs.Meta
+	defer func() { _ = metaSent }()
 	switch cs.Path {
 	case "put", "put-md5", "copy":
 		hdr := append([][2]string(nil), cs.Meta...)
@@ -170,7 +171,10 @@ func c01Check(cs c01Case) (ds []disc) {
 		if cs.Path == "copy" {
 			readKey = key + ".copy"
 			cleanup = append(cleanup, readKey)
-			r := s3x.Do(st.Handler, &s3x.Req{Method: "PUT", Path: "/bk0/" + readKey, Header: s3x.H("X-Amz-Copy-Source", "/bk0/"+url.QueryEscape(key))})
+			// the copy request carries metadata of its own: the destination gets it on top of the
+			// source's, the source must keep exactly what its PUT sent
+			r := s3x.Do(st.Handler, &s3x.Req{Method: "PUT", Path: "/bk0/" + readKey, Header: s3x.H("X-Amz-Copy-Source", "/bk0/"+url.QueryEscape(key),
+				"X-Amz-Meta-Copy-Only", "set by the copy request", "Content-Disposition", "attachment; filename=copy")})
 			if r.Status != 200 || r.Panic != "" {
 				fail("copy-refused", "copy answered %s", r)
 				return
@@ -179,6 +183,35 @@ func c01Check(cs c01Case) (ds []disc) {
 			if err := r.XML(&doc); err != nil || doc.ETag != et {
 				fail("copy-etag", "CopyObjectResult ETag %q want %s (err %v)", doc.ETag, et, err)
 			}
+			src := s3x.Do(st.Handler, &s3x.Req{Method: "GET", Path: "/bk0/" + key})
+			if src.Status != 200 || !bytes.Equal(src.Body, body) || src.Header.Get("ETag") != et {
+				fail("copy-changed-source", "after the copy the source reads %d, %d bytes, ETag %s", src.Status, len(src.Body), src.Header.Get("ETag"))
+			}
+			if src.Header.Get("X-Amz-Meta-Copy-Only") != "" {
+				fail("copy-changed-source-metadata", "after the copy the source carries X-Amz-Meta-Copy-Only, a header only the copy request sent")
+			}
+			sentCD := ""
+			for _, kv := range cs.Meta {
+				if got := src.Header.Get(kv[0]); got != kv[1] {
+					fail("copy-changed-source-metadata", "after the copy the source's %s is %q, its PUT sent %q", kv[0], got, kv[1])
+				}
+				if strings.EqualFold(kv[0], "Content-Disposition") {
+					sentCD = kv[1]
+				}
+			}
+			if got := src.Header.Get("Content-Disposition"); got != sentCD && !cs.Overwrite {
+				fail("copy-changed-source-metadata", "after the copy the source's Content-Disposition is %q, its PUT sent %q", got, sentCD)
+			}
+			// the destination: overrides win, the rest is inherited (checked below through metaSent)
+			var inherited [][2]string
+			for _, kv := range cs.Meta {
+				if !strings.EqualFold(kv[0], "Content-Disposition") {
+					inherited = append(inherited, kv)
+				}
+			}
+			metaSentCopy := append(inherited, [2]string{"X-Amz-Meta-Copy-Only", "set by the copy request"}, [2]string{"Content-Disposition", "attachment; filename=copy"})
+			defer func() { _ = metaSentCopy }()
+			cs.Meta = metaSentCopy
 		}
 	case "post":
 		var buf bytes.Buffer
@@ -210,6 +243,9 @@ func c01Check(cs c01Case) (ds []disc) {
 		return
 	}
 
+	if cs.Path == "copy" {
+		metaSent = cs.Meta
+	}
 	// --- read back through HTTP
 	for _, method := range []string{"GET", "HEAD"} {
 		r := s3x.Do(st.Handler, &s3x.Req{Method: method, Path: "/bk0/" + readKey})
